@@ -213,7 +213,10 @@ def gen_case(rng, profile="default"):
                 sets = sets[:1]                               # a constant naming scheme only works for a single set
         if not names and naming["k"] != "default" and rng.random() < 0.8:
             sets = sets[:1]                                   # several empty parameter sets only differ by their index
-        return {"form": form, "names": names, "sets": sets, "naming": naming}
+        p = {"form": form, "names": names, "sets": sets, "naming": naming}
+        if form == "csv-str-spaced":
+            p["pads"] = header_pads(attr, names)
+        return p
 
     def mk_test(path, visible):
         attr = ident("t_")
@@ -453,15 +456,38 @@ def _py(v):
     return repr(v)
 
 
+# white space a user (or an editor aligning columns) writes around the fields of a CSV-like string header
+_PADS = ["", "", " ", " ", "  ", "      ", "\t", " \t", "\n", "\x0c", "\xa0", "\u3000"]
+
+
+def header_pads(attr, names):
+    """[before, after] white space per field of a `csv-str-spaced` header.  Drawn from a generator of its own (seeded by the
+    declaration) so that widening the header spellings leaves every other random choice of the plans as it was.  A third keep
+    the former spelling 'a , b'."""
+    r = random.Random("header/%s/%s" % (attr, ",".join(names)))
+    if r.random() < 0.34:
+        return None
+    return [[r.choice(_PADS), r.choice(_PADS)] for _ in names]
+
+
+def csv_header(p):
+    """the header STRING of the csv-str forms: the declared names as written ('a,b' / 'a , b' / padded per field)"""
+    names = p["names"]
+    if p["form"] == "csv-str":
+        return ",".join(names)
+    pads = p.get("pads")
+    if not pads:
+        return " , ".join(names)
+    return ",".join(pads[i % len(pads)][0] + n + pads[i % len(pads)][1] for i, n in enumerate(names))
+
+
 def _render_param(p):
     names, sets, form = p["names"], p["sets"], p["form"]
     if form == "dicts":
         src = "[%s]" % ", ".join("{%s}" % ", ".join("%r: %s" % (k, _py(v)) for k, v in zip(names, vals)) for vals in sets)
     else:
-        if form == "csv-str":
-            head = _py(",".join(names))
-        elif form == "csv-str-spaced":
-            head = _py(" , ".join(names))
+        if form in ("csv-str", "csv-str-spaced"):
+            head = _py(csv_header(p))
         elif form == "csv-tuple":
             head = "(%s,)" % ", ".join(_py(n) for n in names)
         else:
@@ -507,8 +533,14 @@ def decorators(x, is_test):
         decs.append({"k": "depends_on"})
     if is_test and x["param"] is not None:
         p = x["param"]
-        decs.append({"k": "parametrized", "src": _render_param(p),
-                     "sets": [[[k, v] for k, v in zip(p["names"], vals)] for vals in p["sets"]],
+        # the model receives the source as WRITTEN for the CSV-like forms (header text / header sequence + rows:
+        # `Model/ParamSource.lean` finds the names), the dicts otherwise
+        src = {"sets": [[[k, v] for k, v in zip(p["names"], vals)] for vals in p["sets"]]}
+        if p["form"] in ("csv-str", "csv-str-spaced"):
+            src = {"header": csv_header(p), "rows": [list(vals) for vals in p["sets"]]}
+        elif p["form"] in ("csv-tuple", "csv-list"):
+            src = {"names": list(p["names"]), "rows": [list(vals) for vals in p["sets"]]}
+        decs.append({"k": "parametrized", "src": _render_param(p), **src,
                      "naming": {"k": p["naming"]["k"], "name": p["naming"].get("name"), "desc": p["naming"].get("desc"),
                                 "which": p["naming"].get("which")}})
     random.Random(order).shuffle(decs)
@@ -970,7 +1002,7 @@ def scheduled_paths(case, obs):
 def oracle(case, obs):
     out = []
     load = obs.get("load", {})
-    if "tree" not in load or obs.get("empty") or "resolve_error" in obs or obs.get("filter_empty"):
+    if "tree" not in load:
         return out
     tree = load["tree"]
     decls = {}
@@ -993,6 +1025,10 @@ def oracle(case, obs):
             if [t["params"] for _, t in got] != sets:
                 out.append(C.Failure("C01/decl/expansion-parameters", "declaration %s: parameter sets %r, loaded tests carry %r" % (
                     attr, sets, [t["params"] for _, t in got])))
+    # (the expansion facts above are about the loaded tree alone: they are judged even when the project is then rejected —
+    # a parameter under a wrong name makes the real argument an unknown fixture)
+    if obs.get("empty") or "resolve_error" in obs or obs.get("filter_empty"):
+        return out
     sched = set(scheduled_paths(case, obs))
     loaded = [x for x in loaded if ".".join(x[0]) in sched]
     paths = [".".join(p) for p, _, _ in loaded]
@@ -1256,6 +1292,19 @@ CORPUS = [
         _t("deep", param={"form": "dicts", "names": ["n"], "sets": [[1], [2]], "naming": {"k": "custom", "which": "idx_rev"}}),
         _t("ghost", hidden=True, param={"form": "dicts", "names": ["n"], "sets": [[1]], "naming": {"k": "default"}}),
     ], disabled="whole class off")])]},
+    # string headers of the CSV-like form as people write them (fourth seeded round): column-aligned, padded at both ends, tabs
+    # — the tests receive the TRIMMED fields as parameter names (a body is called with its own parameter set)
+    {"classes": [_c("net", [
+        _t("connect", desc="Connect", param={"form": "csv-str-spaced", "names": ["host", "port"], "sets": [["localhost", 80], ["example", 443]],
+                                             "pads": [["", "      "], [" ", ""]], "naming": {"k": "default"}}),
+        _t("padded", param={"form": "csv-str-spaced", "names": ["value"], "sets": [["foo"]], "pads": [[" ", " "]],
+                            "naming": {"k": "custom", "which": "vals"}}),
+    ])]},
+    {"classes": [_c("net", [
+        _t("tabs", param={"form": "csv-str-spaced", "names": ["a", "b"], "sets": [[1, "x"], [2, "y"]], "pads": [["\t", "\t"], ["\t", "\n"]],
+                          "naming": {"k": "format", "name": [{"lit": "tabs_"}, {"field": "a"}], "desc": [{"lit": "Tabs "}, {"field": "b"}],
+                                     "as": "tuple"}}),
+    ])]},
 ]
 
 # C04: dependencies spread over stacked decorators (the failing / slow / later-declared dependency in an INNER one),
